@@ -90,17 +90,25 @@ fn fuzz_one<P: Property>(case: P::Case) -> FuzzVerdict {
 pub fn fuzz_dispatch(id: &str, data: &[u8]) -> FuzzVerdict {
     match id {
         "C01" => fuzz_one::<c01::P>(c01::decode(data)),
+        "C02" => fuzz_one::<c02::P>(c02::decode(data)),
+        "C03" => fuzz_one::<c03::P>(c03::decode(data)),
         "C04" => fuzz_one::<c04::P>(c04::decode(data)),
         "C05" => fuzz_one::<c05::P>(c05::decode(data)),
+        "C06" => fuzz_one::<c06::P>(c06::decode(data)),
+        "C07" => fuzz_one::<c07::P>(c07::decode(data)),
+        "C08" => fuzz_one::<c08::P>(c08::decode(data)),
         "C09" => fuzz_one::<c09::P>(c09::decode(data)),
         "C10" => fuzz_one::<c10::P>(c10::decode(data)),
         "C11" => fuzz_one::<c11::P>(c11::decode(data)),
         "C12" => fuzz_one::<c12::P>(c12::decode(data)),
+        "C13" => fuzz_one::<c13::P>(c13::decode(data)),
         "C14" => fuzz_one::<c14::P>(c14::decode(data)),
         "C15" => fuzz_one::<c15::P>(c15::decode(data)),
+        "C16" => fuzz_one::<c16::P>(c16::decode(data)),
         "C17" => fuzz_one::<c17::P>(c17::decode(data)),
         "C18" => fuzz_one::<c18::P>(c18::decode(data)),
         "C19" => fuzz_one::<c19::P>(c19::decode(data)),
+        "C20" => fuzz_one::<c20::P>(c20::decode(data)),
         _ => FuzzVerdict::Unknown,
     }
 }
